@@ -69,6 +69,8 @@ void h_ww(void)
 	RUN2(r = SAFE(wwEq)(in.a[0], in.b[0], n), r = SAFE(wwEq)(in.a[1], in.b[1], n)); CHECK("SAFE wwEq branch trace independent of data");
 	RUN2(r = SAFE(wwCmp)(in.a[0], in.b[0], n), r = SAFE(wwCmp)(in.a[1], in.b[1], n)); CHECK("SAFE wwCmp branch trace independent of data");
 	RUN2(r = SAFE(wwCmpW)(in.a[0], n, in.w[0]), r = SAFE(wwCmpW)(in.a[1], n, in.w[1])); CHECK("SAFE wwCmpW branch trace independent of data");
+	{ size_t m = in.count; VP_ASSUME(m <= NMAX);   /* operand lengths n, m symbolic but equal in both runs */
+	  RUN2(r = SAFE(wwCmp2)(in.a[0], n, in.b[0], m), r = SAFE(wwCmp2)(in.a[1], n, in.b[1], m)); CHECK("SAFE wwCmp2 branch trace independent of data (n < m, n == m, n > m)"); }
 	RUN2(r = SAFE(wwIsZero)(in.a[0], n), r = SAFE(wwIsZero)(in.a[1], n)); CHECK("SAFE wwIsZero branch trace independent of data");
 	RUN2(r = SAFE(wwIsW)(in.a[0], n, in.w[0]), r = SAFE(wwIsW)(in.a[1], n, in.w[1])); CHECK("SAFE wwIsW branch trace independent of data");
 	RUN2(r = SAFE(wwIsRepW)(in.a[0], n, in.w[0]), r = SAFE(wwIsRepW)(in.a[1], n, in.w[1])); CHECK("SAFE wwIsRepW branch trace independent of data");
